@@ -93,8 +93,22 @@ def judge(before_state, before_bytes, root, spec):
             if f not in chain_names:
                 bad.append(("W2:unchained-manifest-after-kill", f"{h or '.'}: manifest {f} is in place but the chain does not list it"))
     # the next commands must load the history normally
+    remains = {}
+    for h, a in after.items():
+        for f in a["files"]:
+            remains[os.path.join(h, "ascmhl", f)] = open(os.path.join(root, h, "ascmhl", f), "rb").read()
     for cmd, args in (("info", [root]), ("verify", [root]), ("create", [root, "-h", "md5"])):
         oc, out = impl.run_cli(cmd, args)
+        if cmd == "create" and oc[0] == "exit" and oc[1] not in (31, 32, 33):
+            # the run after the kill is an ordinary create: it must not touch what is there (C06) nor re-use a generation number
+            for rel_, data in remains.items():
+                p = os.path.join(root, rel_)
+                if not os.path.exists(p) or open(p, "rb").read() != data:
+                    bad.append(("create-after-kill-changed-manifest", f"the create after the kill changed or removed {rel_}"))
+            for h, a2 in state_of(root).items():
+                nums = [f.split("_", 1)[0] for f in a2["files"]]
+                if len(nums) != len(set(nums)):
+                    bad.append(("create-after-kill-duplicate-generation-number", f"{h or '.'}: two manifests carry the same generation number: {sorted(a2['files'])}"))
         if oc[0] == "abort":
             bad.append((f"next-command-aborts:{oc[1]}", f"{cmd} after the kill aborted with {oc[1]}: {out[-200:]}"))
         elif oc[1] in (31, 32, 33):
